@@ -4,7 +4,7 @@ import math
 from fractions import Fraction
 import z3
 
-from .values import (Choice, SymList, Obj, OPAQUE, Unsupported, is_z3, is_bv, is_zint, is_zreal, is_zbool, is_fp,
+from .values import (SymStr, Choice, SymList, Obj, OPAQUE, Unsupported, is_z3, is_bv, is_zint, is_zreal, is_zbool, is_fp,
                      is_pyint, zand, zor, znot, zbool, tobool_const)
 from .ctx import PyRaise, Killed, NoFork, Explorer, Ctx
 from .ops import Ops
@@ -64,6 +64,25 @@ class Interp(ExprMixin, StmtMixin):
         finally:
             self.ctx.nofork -= 1
             self.ctx.sides = saved
+
+    def eval_logical(self, expr, env, name="spec-term-defined"):
+        """Fork-free evaluation of a specification term (spec functions are summarised over all their paths);
+        the definedness conditions become one obligation."""
+        sframe = Frame(self.specs, None, None, dict(env))
+        self.ctx.nofork += 1
+        saved = self.ctx.sides
+        self.ctx.sides = []
+        try:
+            v = self.eval(sframe, ast.parse(expr.strip(), mode="eval").body)
+            sides = list(self.ctx.sides)
+        except NoFork:
+            raise Unsupported("specification term needs a fork: %s" % expr)
+        finally:
+            self.ctx.nofork -= 1
+            self.ctx.sides = saved
+        if sides:
+            self.ctx.oblige(name, zand(*sides), None, "safety")
+        return v
 
     def spec_bool(self, expr, env):
         sframe = Frame(self.specs, None, None, dict(env))
@@ -146,6 +165,16 @@ class Interp(ExprMixin, StmtMixin):
             f = z3.Implies(rng, body)
             return (z3.ForAll([kv], f, patterns=pats) if pats else z3.ForAll([kv], f),)
         f = zand(rng, body)
+        if saved_reads is None and self.ctx.settings.theory == "int":
+            # definitional skolemisation of a top-level existential: a fresh Boolean e with
+            #   (forall k. P(k) => e)  and  (e => P(sk))   for a fresh constant sk.
+            # Both are assumptions about fresh symbols only (conservative), and every VC becomes universal.
+            e = z3.Bool(self.ctx.fresh_name("ex"))
+            sk = ops.int_var(self.ctx.fresh_name("sk_" + g.target.id))
+            fa = z3.Implies(f, e)
+            self.ctx.pc.append(z3.ForAll([kv], fa, patterns=pats) if pats else z3.ForAll([kv], fa))
+            self.ctx.pc.append(z3.Implies(e, z3.substitute(f, (kv, sk))))
+            return (e,)
         return (z3.Exists([kv], f),)
 
     def patterns_from_reads(self, reads, kv):
@@ -497,6 +526,15 @@ class Interp(ExprMixin, StmtMixin):
                 return list(obj.values())
             if name == "items":
                 return [(k, v) for k, v in obj.items()]
+        if isinstance(obj, SymStr):
+            return self.str_method(obj, name, args, w)
+        if isinstance(obj, str) and name in ("lower", "upper", "zfill", "strip", "lstrip", "rstrip") and all(not is_z3(a) for a in args):
+            return getattr(obj, name)(*args)
+        if isinstance(obj, str) and name == "format" and len(args) == 1 and not kwargs:
+            import re
+            m = re.fullmatch(r"\{:?([^{}]*)\}", obj)
+            if m:
+                return self.str_format(args[0], m.group(1) or "d", w)
         if isinstance(obj, tuple) and name == "index" and not is_z3(args[0]):
             return obj.index(args[0])
         raise Unsupported("method %s of %s at %s" % (name, type(obj).__name__, w))
@@ -516,6 +554,8 @@ class Interp(ExprMixin, StmtMixin):
             v = args[0]
             if isinstance(v, (list, tuple, str, dict, set)):
                 return len(v)
+            if isinstance(v, SymStr):
+                return len(v.chars)
             if isinstance(v, SymList):
                 return v.length
             raise Unsupported("len of %s at %s" % (type(v).__name__, w))
@@ -557,6 +597,14 @@ class Interp(ExprMixin, StmtMixin):
                 return abs(v)
             c = ops.compare("<", v, 0, w)
             return self.merge_values(c, ops.neg(v, w), v)[0]
+        if name == "hex":
+            return self.str_hex(args[0], w, prefix=True, upper=False)
+        if name == "format" and len(args) == 2 and isinstance(args[1], str):
+            return self.str_format(args[0], args[1], w)
+        if name == "str" and len(args) == 1 and isinstance(args[0], (SymStr, str)):
+            return args[0]
+        if name == "int" and len(args) == 2 and isinstance(args[0], (SymStr, str)):
+            return self.str_parse_int(args[0], args[1], w)
         if name == "int":
             v = args[0]
             if len(args) == 1 and (ops.is_intlike(v)):
@@ -671,6 +719,86 @@ class Interp(ExprMixin, StmtMixin):
                 loc = self.bind_args(fn.node, args, {}, fn.modinfo, w)
                 return self.ops.lift_int(self.eval_spec(c.logical_result, None, loc))
         raise Unsupported("key function without a logical_result contract at %s" % w)
+
+    # ------------------------------------------------------------------ strings (C19)
+    def str_hex(self, v, w, prefix, upper, width=0):
+        """hex(v) / format(v, 'x') for v >= 0 with a known number of hex digits (builtin contract A4).
+        The number of digits comes from the harness (`self.hex_digits`: 16^(L-1) <= v < 16^L, or v == 0 for L == 1)."""
+        ops = self.ops
+        if is_pyint(v):
+            t = ("%X" if upper else "%x") % v if v >= 0 else None
+            if t is None:
+                raise Unsupported("hex of a negative constant at %s" % w)
+            return ("0x" if prefix else "") + t.rjust(width, "0")
+        L = getattr(self, "hex_digits", None)
+        if L is None or not ops.is_symint(v):
+            raise Unsupported("hex()/format() of a symbolic value without a digit-count case at %s" % w)
+        self.ctx.oblige("safety:hex-of-non-negative@%s" % w, v >= ops.int_const(0), w, "safety")
+        lo = ops.int_const(0 if L == 1 else 16 ** (L - 1))
+        self.ctx.oblige("safety:hex-digit-count-case@%s" % w, zand(v >= lo, v < ops.int_const(16 ** L)), w, "safety")
+        chars = [48, 120] if prefix else []
+        digs = []
+        for i in range(L - 1, -1, -1):
+            nib = (v >> ops.int_const(4 * i)) & ops.int_const(15)
+            base = 55 if upper else 87
+            digs.append(z3.If(nib < ops.int_const(10), nib + ops.int_const(48), nib + ops.int_const(base)))
+        pad = [48] * max(0, width - len(digs))
+        return SymStr(chars + pad + digs)
+
+    def str_format(self, v, spec, w):
+        import re
+        m = re.fullmatch(r"(0?)(\d*)([xX])", spec)
+        if not m:
+            raise Unsupported("format spec %r at %s" % (spec, w))
+        width = int(m.group(2)) if m.group(2) else 0
+        if width and not m.group(1):
+            raise Unsupported("space-padded format %r at %s" % (spec, w))
+        return self.str_hex(v, w, prefix=False, upper=(m.group(3) == "X"), width=width)
+
+    def str_parse_int(self, s, base, w):
+        """int(s, 16) for a string of known length (builtin contract A4): optional 0x/0X prefix, then hex digits of
+        either case; any other character is a ValueError."""
+        ops = self.ops
+        if base != 16:
+            raise Unsupported("int(s, %r) at %s" % (base, w))
+        if isinstance(s, str):
+            try:
+                return int(s, 16)
+            except ValueError:
+                raise PyRaise("ValueError", w)
+        chars = [ops.lift_int(c) for c in s.chars]
+        if not chars:
+            raise PyRaise("ValueError", w)
+        if len(chars) >= 3:
+            is_pref = zand(chars[0] == ops.int_const(48), zor(chars[1] == ops.int_const(120), chars[1] == ops.int_const(88)))
+            if self.ctx.branch(is_pref, w):
+                chars = chars[2:]
+        total = ops.int_const(0)
+        for c in chars:
+            isd = zand(c >= ops.int_const(48), c <= ops.int_const(57))
+            isl = zand(c >= ops.int_const(97), c <= ops.int_const(102))
+            isu = zand(c >= ops.int_const(65), c <= ops.int_const(70))
+            self.ctx.guard_error(znot(zor(isd, isl, isu)), "ValueError", w)
+            d = z3.If(isd, c - ops.int_const(48), z3.If(isl, c - ops.int_const(87), c - ops.int_const(55)))
+            total = ops.binop("+", ops.binop("*", total, 16, w), d, w)
+        return total
+
+    def str_method(self, s, name, args, w):
+        ops = self.ops
+        if name in ("lower", "upper"):
+            out = []
+            for c in s.chars:
+                c = ops.lift_int(c)
+                if name == "lower":
+                    out.append(z3.If(zand(c >= ops.int_const(65), c <= ops.int_const(90)), c + ops.int_const(32), c))
+                else:
+                    out.append(z3.If(zand(c >= ops.int_const(97), c <= ops.int_const(122)), c - ops.int_const(32), c))
+            return SymStr(out)
+        if name == "zfill" and is_pyint(args[0]):
+            return SymStr([48] * max(0, args[0] - len(s.chars)) + list(s.chars))
+        if name == "rjust" and is_pyint(args[0]) and len(args) == 2 and isinstance(args[1], str) and len(args[1]) == 1:
+            return SymStr([ord(args[1])] * max(0, args[0] - len(s.chars)) + list(s.chars))
+        raise Unsupported("string method .%s() at %s" % (name, w))
 
     def isinstance_(self, v, cls, w):
         if isinstance(cls, tuple):
